@@ -223,6 +223,17 @@ func (ex *Exec) execInstr(fr *Frame, st *State, ins ssa.Instruction) {
 			}
 		}
 		ex.onBlockingOp(fr, st, "select", x.Pos())
+		// the receive ledger: a receive case that is chosen receives once
+		for i, s := range x.States {
+			if s.Dir != types.RecvOnly {
+				continue
+			}
+			if cv, ok := ex.operand(fr, st, s.Chan).(TV); ok && cv.T.Sort == SInt {
+				g := ex.heapGet(st, "G:recvd", SArray(SInt, SInt))
+				inc := ts.Ite(ts.Eq(idx, ts.Int(int64(i))), ts.Int(1), ts.Int(0))
+				ex.heapSet(st, "G:recvd", ts.Store(g, cv.T, ts.Add(ts.Select(g, cv.T), inc)))
+			}
+		}
 		// the send ledger: a send case that is chosen sends one value
 		for i, s := range x.States {
 			if s.Dir != types.SendOnly {
@@ -338,6 +349,11 @@ func (ex *Exec) unop(fr *Frame, st *State, x *ssa.UnOp) Value {
 		ex.onBlockingOp(fr, st, "recv", x.Pos())
 		ch := ex.term(v, SInt, "recv chan")
 		ex.siteRecv(fr, st, ch, x.Pos())
+		// recvd(ch): number of receive operations this call completed on ch
+		{
+			g := ex.heapGet(st, "G:recvd", SArray(SInt, SInt))
+			ex.heapSet(st, "G:recvd", ts.Store(g, ch, ts.Add(ts.Select(g, ch), ts.Int(1))))
+		}
 		if x.CommaOk {
 			el := x.Type().(*types.Tuple).At(0).Type()
 			okT := ts.Fresh("recv.ok", SBool)
